@@ -347,7 +347,9 @@ def report(plan, tier, seed, results, infra_msgs, wall, get_trace, update_baseli
     ev = {'property_id': pid, 'tier': tier, 'seed': seed, 'level': level, 'coverage': cov,
           'assumptions': EXTRACTION_DROPS + plan.assumptions, 'wall_s': round(wall, 1), 'violations': nviol}
     os.makedirs(os.path.join(VERIF, 'evidence'), exist_ok=True)
-    json.dump(ev, open(os.path.join(VERIF, 'evidence', pid + '.json'), 'w'), indent=1)
+    # partial runs (--only) never overwrite the registered evidence file
+    evname = pid + ('.partial' if os.environ.get('VF_PARTIAL') else '') + '.json'
+    json.dump(ev, open(os.path.join(VERIF, 'evidence', evname), 'w'), indent=1)
     for l in out_lines:
         print(l)
     print('[%s] tier=%s jobs=%d proved=%d failed=%d undecided=%d obligations(P/W)=%d/%d bounded=%d/%d solver=%.0fs wall=%.0fs' % (
